@@ -305,89 +305,103 @@ def _raw_delete(addr, cid):
 
 
 def scenario_c18(scn):
-    """scn: {id, hist: [{op,id,tok,w,x,k}], upayload: hex of a recorded worker-in-context payload frame, upos, logdir}
-    Plays the history with real RemoteContext / PersistentRemoteWorker(context=i) calls (a raw-socket
-    client where the model says the context is unknown: the real constructor would hang - C20)."""
+    """scn: {id, hist: [{op,id,tok,w,x,k}], idmap: {model id: real context id}, upayload, upos, logdir}
+    Plays the history with real RemoteContext / PersistentRemoteWorker(context=i) calls.  Raw-socket
+    clients where the API offers no call: a worker request where the model says the context is unknown
+    (the real constructor would not return a worker - C20) and a delete of an id the client holds no live
+    context object of.  The model's abstract ids 1..3 are concretised by `idmap` (which includes falsy
+    ids: 0, '').  Whatever happens - the server dying in the middle of the history included - is
+    projected into the reply of that request ("raised:<Type>", "hang", "noworker"); nothing is judged here."""
     import select
     import socket
     from pyworkers.remote import send_msg
+    from pyworkers.persistent import WorkerClosedError
     from pyworkers.persistent_remote import PersistentRemoteWorker
     from pyworkers.remote_context import RemoteContext
     L.setup_env()
     srv = Srv(scn.get('logdir'))
+    idmap = {int(k): v for k, v in (scn.get('idmap') or {1: 1, 2: 2, 3: 3}).items()}
     reps, lives = [], []
     ctxobj, workers, raws = {}, {}, {}
-    notes = {'helpers': -1, 'server_error': ''}
+    notes = {'helpers': -1, 'server_error': '', 'idmap': {str(k): v for k, v in idmap.items()}, 'died_at': 0}
     obs = {'rep': reps, 'live': lives, 'srv_alive': 'F', 'fresh': []}
+
+    def one(n, q):
+        op = q['op']
+        cid = idmap.get(q['id'])
+        if op == 'create':
+            r = L.bounded(lambda: RemoteContext(cid, host=srv.addr, target=tg.ctx_fun, kwargs={'tok': q['tok']}), HANG)
+            if r[0] == 'ok':
+                ctxobj[q['id']] = r[1]
+                return 'ok', []
+            return ('ValueError' if r[0] == 'raised' and isinstance(r[1], ValueError) else L.tag(r)), []
+        if op == 'delete':
+            o = ctxobj.get(q['id'])
+            if o is not None and o.is_alive():
+                r = L.bounded(o.wait, 3 * HANG)
+            else:
+                r = L.bounded(_raw_delete, 3 * HANG, srv.addr, cid)
+            # which workers are still alive shortly after the reply (API and OS), without touching them
+            t0 = time.time()
+            pend = dict(workers)
+            while pend and time.time() - t0 < 2.0:
+                for w, wo in list(pend.items()):
+                    a = L.bounded(wo.is_alive, HANG)
+                    if a == ('ok', False) and not L.pid_alive(wo.pid):
+                        del pend[w]
+                if pend:
+                    time.sleep(0.05)
+            return L.tag(r), sorted(pend)
+        if op == 'start':
+            if q['k'] == 'T':
+                r = L.bounded(lambda: PersistentRemoteWorker(None, host=srv.addr, context=cid, main_path=L.TARGETS_PATH), HANG)
+                if r[0] == 'ok':
+                    workers[q['w']] = r[1]
+                    return 'started', []
+                return L.tag(r), []
+            cap = _Capture()
+            send_msg(cap, (cid, True))
+            pay = L.retarget([b'', bytes.fromhex(scn['upayload'])], [tuple(p) for p in scn['upos']], srv.addr[1])[1]
+            s = socket.socket(socket.AF_INET, socket.SOCK_STREAM)
+            s.settimeout(HANG)
+            try:
+                s.connect(srv.addr)
+                s.sendall(cap.data + pay)
+                raws[n] = s
+                return 'pending', []
+            except OSError as e:
+                s.close()
+                return 'raised:' + type(e).__name__, []
+        wo = workers.get(q['w'])
+        if wo is None:
+            return 'noworker', []                     # the start this request refers to gave no worker
+        if op == 'call':
+            def call():
+                try:
+                    wo.enqueue(q['x'])
+                    return 'v:%s' % (wo.next_result(timeout=HANG),)
+                except (WorkerClosedError, queue.Empty):
+                    return 'dead'
+            r = L.bounded(call, 2 * HANG)
+            return (r[1] if r[0] == 'ok' else L.tag(r)), []
+        if op == 'wait':
+            return L.tag(L.bounded(wo.wait, 2 * HANG, HANG)), []
+        raise MachineryError('unknown request in history: %r' % (q,))
+
     try:
         for n, q in enumerate(scn['hist']):
-            op, cid = q['op'], q['id']
-            live = []
-            if op == 'create':
-                r = L.bounded(lambda: RemoteContext(cid, host=srv.addr, target=tg.ctx_fun, kwargs={'tok': q['tok']}), HANG)
-                if r[0] == 'ok':
-                    ctxobj[cid] = r[1]
-                    reps.append('ok')
-                else:
-                    reps.append('ValueError' if r[0] == 'raised' and isinstance(r[1], ValueError) else L.tag(r))
-            elif op == 'delete':
-                o = ctxobj.get(cid)
-                if o is not None and o.is_alive():
-                    r = L.bounded(o.wait, 3 * HANG)
-                else:
-                    r = L.bounded(_raw_delete, 3 * HANG, srv.addr, cid)
-                reps.append(L.tag(r))
-                # which workers are still alive shortly after the reply (API and OS), without touching them
-                t0 = time.time()
-                pend = dict(workers)
-                while pend and time.time() - t0 < 2.0:
-                    for w, wo in list(pend.items()):
-                        a = L.bounded(wo.is_alive, HANG)
-                        if a == ('ok', False) and not L.pid_alive(wo.pid):
-                            del pend[w]
-                    if pend:
-                        time.sleep(0.05)
-                live = sorted(pend)
-            elif op == 'start':
-                if q['k'] == 'T':
-                    r = L.bounded(lambda: PersistentRemoteWorker(None, host=srv.addr, context=cid, main_path=L.TARGETS_PATH), HANG)
-                    if r[0] == 'ok':
-                        workers[q['w']] = r[1]
-                        reps.append('started')
-                    else:
-                        reps.append(L.tag(r))
-                else:
-                    cap = _Capture()
-                    send_msg(cap, (cid, True))
-                    pay = L.retarget([b'', bytes.fromhex(scn['upayload'])], [tuple(p) for p in scn['upos']], srv.addr[1])[1]
-                    s = socket.socket(socket.AF_INET, socket.SOCK_STREAM)
-                    s.settimeout(HANG)
-                    try:
-                        s.connect(srv.addr)
-                        s.sendall(cap.data + pay)
-                        raws[n] = s
-                        reps.append('pending')
-                    except OSError as e:
-                        reps.append('raised:' + type(e).__name__)
-            elif op == 'call':
-                wo = workers.get(q['w'])
-
-                def call():
-                    from pyworkers.persistent import WorkerClosedError
-                    try:
-                        wo.enqueue(q['x'])
-                        return 'v:%s' % (wo.next_result(timeout=HANG),)
-                    except (WorkerClosedError, queue.Empty):
-                        return 'dead'
-                r = L.bounded(call, 2 * HANG)
-                reps.append(r[1] if r[0] == 'ok' else L.tag(r))
-            elif op == 'wait':
-                wo = workers.get(q['w'])
-                reps.append(L.tag(L.bounded(wo.wait, 2 * HANG, HANG)))
-            else:
-                raise MachineryError('unknown request in history: %r' % (q,))
+            try:
+                rep, live = one(n, q)
+            except MachineryError:
+                raise
+            except Exception as e:  # noqa  (a call of the library under test failed in an unforeseen way: an observation)
+                rep, live = 'raised:' + type(e).__name__, []
+            reps.append(rep)
             lives.append(live)
-            srv.note_descendants()
+            if srv.alive():
+                srv.note_descendants()
+            elif not notes['died_at']:
+                notes['died_at'] = n + 1
         # end of history: the server must still serve; then settle the raw worker requests
         fr = fresh_round_trip(srv, 500)
         obs['fresh'].append(fr)
